@@ -4,7 +4,9 @@ import (
 	"bytes"
 	"encoding/binary"
 	"fmt"
+	"os"
 	"testing"
+	"time"
 
 	"github.com/SAP/go-dblib/tds"
 	"pgregory.net/rapid"
@@ -98,7 +100,8 @@ func TestWriteAfterReadingEverything(t *testing.T) {
 		c := mixedCase{Size: rapid.SampledFrom([]int{9, 10, 12, 16, 64}).Draw(rt, "size")}
 		ctr := byte(1)
 		for n := rapid.IntRange(0, 3).Draw(rt, "packets"); n > 0; n-- {
-			k := rapid.IntRange(0, c.Size-8).Draw(rt, "len")
+			// (no empty packets here: see TestWriteBehindEmptyEnqueuedPackets)
+			k := rapid.IntRange(1, c.Size-8).Draw(rt, "len")
 			if rapid.Bool().Draw(rt, "full") {
 				k = c.Size - 8
 			}
@@ -114,4 +117,34 @@ func TestWriteAfterReadingEverything(t *testing.T) {
 		return c
 	}
 	vh.Check(t, "TestWriteAfterReadingEverything", vh.N(4000, 100000), gen, runMixed)
+}
+
+// The one shape the known finding C15/write-behind-empty-enqueued-packet is about, run once per
+// check run (by the first process): two empty enqueued packets, then a write.
+func TestWriteBehindEmptyEnqueuedPackets(t *testing.T) {
+	e := vh.NewEnum(t, "TestWriteBehindEmptyEnqueuedPackets", runMixedGuarded)
+	if e.Skip() {
+		return
+	}
+	if vh.Mine(0) {
+		e.Do(mixedCase{Size: 9, Packets: [][]byte{{}, {}}, Writes: []op{{K: "wu16", N: 1}}})
+	}
+}
+
+// runMixedGuarded: writing behind empty packets is where a queue can end up opening packet
+// after packet without ever finding room. A call that is not back after three seconds is
+// reported and the process ends at once (the loop cannot be stopped from outside and allocates
+// all the while); this is the last test of the package.
+func runMixedGuarded(c mixedCase) *vh.Failure {
+	done := make(chan *vh.Failure, 1)
+	go func() { done <- runMixed(c) }()
+	select {
+	case f := <-done:
+		return f
+	case <-time.After(3 * time.Second):
+		f := vh.Failf("C15/write-does-not-return", "packets %x enqueued, then writes %v: the write is not back after 3 s", c.Packets, c.Writes)
+		vh.Violation("TestWriteBehindEmptyEnqueuedPackets", f, c)
+		os.Exit(3)
+		return f
+	}
 }
